@@ -297,3 +297,75 @@ Proof.
     pose proof (first_within_sound r ch Hf Hin) as Ht. rewrite (Hhd ch Hh) in Ht. discriminate.
 Qed.
 End StartChars.
+
+(* ---------- 5. length bounds of a match ---------- *)
+Section Lengths.
+Variable U : uni.
+
+Fixpoint minlen (r : rx) : nat :=
+  match r with
+  | REps | RAt _ | RLook _ _ _ | RBackref _ => 0
+  | RLit _ | RNotLit _ | RIn _ _ | RAny _ => 1
+  | RSeq a b => minlen a + minlen b
+  | RAlt a b => Nat.min (minlen a) (minlen b)
+  | RFail => 0
+  | RRep _ lo _ r1 => lo * minlen r1
+  | RGroup _ r1 => minlen r1
+  end.
+
+(* None = unbounded *)
+Fixpoint maxlen (r : rx) : option nat :=
+  match r with
+  | REps | RAt _ | RLook _ _ _ | RFail => Some 0
+  | RLit _ | RNotLit _ | RIn _ _ | RAny _ => Some 1
+  | RSeq a b => match maxlen a, maxlen b with Some x, Some y => Some (x + y) | _, _ => None end
+  | RAlt a b => match maxlen a, maxlen b with Some x, Some y => Some (Nat.max x y) | _, _ => None end
+  | RRep _ _ hi r1 => match hi, maxlen r1 with Some h, Some x => Some (h * x) | _, _ => None end
+  | RGroup _ r1 => maxlen r1
+  | RBackref _ => None
+  end.
+
+Lemma iter_len r1 (IH : forall z c z' c', M U r1 z c z' c' ->
+                        minlen r1 <= z_idx z' - z_idx z /\ z_idx z <= z_idx z' /\
+                        match maxlen r1 with Some x => z_idx z' - z_idx z <= x | None => True end) :
+  forall n z c z' c', iter (M U r1) n z c z' c' ->
+    n * minlen r1 <= z_idx z' - z_idx z /\ z_idx z <= z_idx z' /\
+    match maxlen r1 with Some x => z_idx z' - z_idx z <= n * x | None => True end.
+Proof.
+  induction 1 as [z c|n z c z1 c1 z2 c2 HR Hlt _ IHi].
+  - cbn. destruct (maxlen r1); repeat split; lia.
+  - apply IH in HR. destruct HR as (A1 & A2 & A3). destruct IHi as (B1 & B2 & B3).
+    cbn [Nat.mul]. destruct (maxlen r1); repeat split; lia.
+Qed.
+
+Theorem len_sound r : forall z c z' c', M U r z c z' c' ->
+  minlen r <= z_idx z' - z_idx z /\ z_idx z <= z_idx z' /\
+  match maxlen r with Some x => z_idx z' - z_idx z <= x | None => True end.
+Proof.
+  induction r as [|ch|ch|ineg items|dotall|ra IHa rb IHb|ra IHa rb IHb| |greedy lo hi r1 IH1|g r1 IH1|g|ahead neg r1 IH1|a];
+    cbn [M minlen maxlen]; intros z c z' c' H;
+    try (destruct H as (ch0 & Hs & _); apply zstep_adv in Hs; destruct Hs as (_ & _ & C); cbn in C; repeat split; lia).
+  - destruct H as [-> _]. repeat split; lia.
+  - destruct H as (z1 & c1 & Ha & Hb). apply IHa in Ha. apply IHb in Hb.
+    destruct Ha as (A1 & A2 & A3). destruct Hb as (B1 & B2 & B3).
+    destruct (maxlen ra), (maxlen rb); repeat split; lia.
+  - destruct H as [H|H]; [apply IHa in H|apply IHb in H]; destruct H as (A1 & A2 & A3);
+      destruct (maxlen ra), (maxlen rb); repeat split; lia.
+  - contradiction.
+  - destruct H as (n & Hlo & Hhi & Hi). destruct (iter_len r1 IH1 n _ _ _ _ Hi) as (A1 & A2 & A3).
+    repeat split; [nia|lia|]. destruct hi as [h|]; [|exact I]. cbn in Hhi. destruct (maxlen r1); [nia|exact I].
+  - destruct H as (c1 & H & _). exact (IH1 _ _ _ _ H).
+  - destruct H as (a0 & b0 & _ & H). apply Mlits_adv in H. destruct H as [(_ & _ & C) _]. repeat split; lia.
+  - destruct neg; destruct H as [-> _]; repeat split; lia.
+  - destruct H as [-> _]. repeat split; lia.
+Qed.
+
+(* the body of capture group g *)
+Fixpoint group_body (g : nat) (r : rx) : option rx :=
+  match r with
+  | RSeq a b | RAlt a b => match group_body g a with Some x => Some x | None => group_body g b end
+  | RRep _ _ _ r1 | RLook _ _ r1 => group_body g r1
+  | RGroup g' r1 => if Nat.eqb g g' then Some r1 else group_body g r1
+  | _ => None
+  end.
+End Lengths.
